@@ -8,6 +8,7 @@ sends to nodes not known to be sleeping; it does not order parked against direct
 re-presentation resets its `sleeping` flag while entries stay parked — DESIGN section 6).
 -/
 import AioMySensors.Lemmas.Flushing
+import AioMySensors.Lemmas.StaysSleeping
 
 namespace AioMySensors.C07
 open AioMySensors M
@@ -416,6 +417,115 @@ example : QuietAlong (1, 0, 2) 1 { proto := .v20 }
   · intro m hm
     cases hm
     decide
+
+/-! ### A destination known to be sleeping stays one until it presents itself again
+
+The property speaks of "a node known to be sleeping" and names one message per protocol that ends the waiting of its
+commands — the wake signal, which releases them and leaves the node a sleeping destination.  Nothing else the node
+sends (any other internal type, a set, a req, a child presentation, a stream message), nothing other nodes or the
+gateway send, no `send` of the application clears the flag; only the node's own presentation does (a fresh record:
+DESIGN section 6).  Seed C07j (a handler for another internal type that clears the flag) is a violation of
+`sleeps_runLeaf` / `recv_keeps_sleeping`. -/
+
+/-- `m` is the presentation of node `k` itself (the node booted: the registry gets a fresh record for it). -/
+def PresentsNode (k : Int) (m : Msg) : Prop :=
+  m.cmd = Gen.cmdPresentation ∧ m.child = Gen.systemChildId ∧ m.node = k
+
+/-- In the generated chains the presentation handler sits under the presentation command only. -/
+theorem presentation_bases : ∀ v : Ver, ∀ e ∈ Gen.commandChains v, e.2.base = .presentation14 → e.1 = Gen.cmdPresentation := by
+  decide
+
+/-- Whatever message is dispatched under whatever protocol — except the presentation of node `k` itself — a node `k`
+flagged as sleeping is flagged as sleeping afterwards, whatever the outcome and the fault schedule. -/
+theorem dispatch_keeps_sleeping (env : Env) (v : Ver) (m : Msg) (w : W) (k : Int)
+    (h : ¬ PresentsNode k m) (hs : Sleeping w.st k) : Sleeping (dispatch env v m w).2.st k := by
+  have key : HPresI (SleepsIn k) (dispatch env v m) := by
+    simp only [dispatch]
+    split
+    · exact ret_raise _
+    · next ch hch =>
+      refine pres_applyLayers _ _ m (sleeps_runBase k env v ch.base m fun hb => ?_)
+      have hcmd : m.cmd = Gen.cmdPresentation := presentation_bases v _ (lookup_mem hch) hb
+      exact sleeps_hPresentation k env v m fun hc => h ⟨hcmd, hc.1, hc.2⟩
+  exact key.inv w hs
+
+/-- One iteration of `listen` on any line (a rejected one included) that is not the presentation of node `k`. -/
+theorem recv_keeps_sleeping (env : Env) (line : Str) (w : W) (k : Int)
+    (h : ∀ m, decode w.st.proto line = some m → ¬ PresentsNode k m) (hs : Sleeping w.st k) :
+    Sleeping (recv env line w).2.st k := by
+  simp only [recv, M.bind, M.getSt]
+  cases hd : decode w.st.proto line with
+  | none => exact hs
+  | some m => exact dispatch_keeps_sleeping env _ m w k (h m hd) hs
+
+/-- No `send` clears the flag. -/
+theorem send_keeps_sleeping (obj : Option Msg) (b : Bool) (w : W) (k : Int) (hs : Sleeping w.st k) :
+    Sleeping (apiSend obj b w).2.st k :=
+  (pres_apiSend (I := SleepsIn k) obj b).inv w hs
+
+/-- The wake signals leave (or make) the node a sleeping destination: after the release it is flagged as sleeping. -/
+theorem wake_makes_sleeping (m : Msg) (w : W) (node : Node) (hn : w.st.nodes.get? m.node = some node) :
+    (∀ hb, pyInt? m.payload = some hb → Sleeping (hHeartbeat20 m w).2.st m.node) ∧ Sleeping (hPreSleep22 m w).2.st m.node := by
+  constructor
+  · intro hb hp
+    rw [heartbeat_wake m w node hb hn hp]
+    exact (pres_flush (I := SleepsIn m.node) m).inv _ ⟨_, PDict.get?_set_self _ _ _, rfl⟩
+  · rw [pre_sleep_wake m w node hn]
+    exact (pres_flush (I := SleepsIn m.node) m).inv _ ⟨_, PDict.get?_set_self _ _ _, rfl⟩
+
+/-- An operation that is not the arrival of node `k`'s own presentation (judged under the protocol active when it
+arrives): any other received line, any `send`. -/
+def StepNotPresenting (k : Int) (st : St) : Op → Prop
+  | .recv _ line _ => ∀ m, decode st.proto line = some m → ¬ PresentsNode k m
+  | .send _ _ _ => True
+
+/-- … along a whole history, each operation judged in the state it meets. -/
+def NotPresentedAlong (k : Int) : St → List Op → Prop
+  | _, [] => True
+  | st, op :: ops => StepNotPresenting k st op ∧ NotPresentedAlong k (stepOp st op).1 ops
+
+theorem step_keeps_sleeping (k : Int) (st : St) (op : Op) (hs : Sleeping st k) (hq : StepNotPresenting k st op) :
+    Sleeping (stepOp st op).1 k := by
+  cases op with
+  | recv env line faults =>
+    have := recv_keeps_sleeping env line { st := st, faults := faults } k hq hs
+    simp only [stepOp]
+    split <;> next heq => (rw [heq] at this; exact this)
+  | send obj b faults =>
+    have := send_keeps_sleeping obj b { st := st, faults := faults } k hs
+    simp only [stepOp]
+    split <;> next heq => (rw [heq] at this; exact this)
+
+/-- **Sleeping until presented.**  From any state in which node `k` is flagged as sleeping, along ANY history —
+lines of every kind from every node (every internal type of `k` itself, its wake signals, heartbeats under 2.2,
+set / req / stream messages, child presentations), version reports that switch the protocol, id requests, rejected
+lines, sends, arbitrary write faults and cancellations — in which `k`'s own presentation does not arrive, `k` is
+still flagged as sleeping. -/
+theorem sleeping_until_presented (k : Int) (ops : List Op) (st : St) (hs : Sleeping st k)
+    (hq : NotPresentedAlong k st ops) : Sleeping (stateAfter st ops) k := by
+  induction ops generalizing st with
+  | nil => simpa [stateAfter, run] using hs
+  | cons op ops ih =>
+    have := ih (stepOp st op).1 (step_keeps_sleeping k st op hs hq.1) hq.2
+    simpa [stateAfter, run] using this
+
+/-- **A sleeping destination stays one**: after any such history a set command sent with buffering allowed to that node
+is parked, not written. -/
+theorem parks_until_presented (m : Msg) (ops : List Op) (st : St) (w : W) (hw : w.st = stateAfter st ops)
+    (hcmd : m.cmd = 1) (hs : Sleeping st m.node) (hq : NotPresentedAlong m.node st ops) :
+    apiSend (some m) true w = (.ok (), { w with st := { w.st with sbuf := w.st.sbuf.set m.key m } }) :=
+  send_parks m w hcmd (hw ▸ sleeping_until_presented m.node ops st hs hq)
+
+/-! Non-vacuity of `NotPresentedAlong`: under 2.2 a post-sleep notification of the very node that sleeps, followed by a
+`send` to it, is such a history for node 1. -/
+example : NotPresentedAlong 1 { proto := .v22 }
+    [.recv {} "1;255;3;0;33;".toList [], .send (some ⟨1, 0, 1, 0, 2, ['9']⟩) true []] := by
+  refine ⟨?_, trivial, trivial⟩
+  intro m hd hp
+  have hdec : decode .v22 "1;255;3;0;33;".toList = some ⟨1, 255, 3, 0, 33, []⟩ := by decide
+  rw [show ({ proto := .v22 } : St).proto = .v22 from rfl, hdec] at hd
+  cases hd
+  exact absurd hp.1 (by decide)
 
 /-! Non-vacuity -/
 example : SbufInv { sbuf := [((1, 0, 2), ⟨1, 0, 1, 0, 2, ['5']⟩), ((2, 0, 2), ⟨2, 0, 1, 0, 2, ['6']⟩)] } := by
